@@ -49,7 +49,7 @@ func smallProfile() *profile.Profile {
 }
 
 var paramPool = map[string][]string{
-	"f": {"foo", "a|b", "x y", "é&=", "main"}, "i": {"bar"}, "h": {"hid"}, "s": {"sh|main|foo"}, "sf": {"foo"}, "tf": {"k=v0"}, "ti": {"1kb:"}, "ts": {"k"}, "th": {"b"},
+	"f": {"foo", "a|b", "x y", "é&=", "main", `main\..+Handler`, "a+b", "x%41", "a;b", "#x", "q?", "a&h=b", "50%", "+"}, "i": {"bar", "b+", "x&f=y"}, "h": {"hid", "h+i"}, "s": {"sh|main|foo", "s+|main|foo"}, "sf": {"foo", "fo+"}, "tf": {"k=v0"}, "ti": {"1kb:"}, "ts": {"k"}, "th": {"b"},
 	"n": {"7", "0", "3"}, "nf": {"0.25", "0"}, "ef": {"0.5"}, "trim": {"f", "t"}, "calltree": {"t"}, "rel": {"t"}, "unit": {"ms", "minimum"}, "compact": {"t"},
 	"mean": {"t"}, "norm": {"t"}, "sort": {"cum", "flat"}, "g": {"lines", "files", "functions"}, "noinlines": {"t"}, "showcolumns": {"t"}, "dropneg": {"t"}, "intel": {"t"}, "prunefrom": {"pf"},
 	"tagroot": {"k"}, "tagleaf": {"bytes"},
@@ -280,6 +280,7 @@ type faultSpec struct {
 	Op      op   // the operation under fault
 	LimitAt int  // RLIMIT_FSIZE in bytes (-1 = none)
 	Marker  bool // touch marker files around the operation (for the strace pass)
+	Follow  *op  // applied in the same process after Op, without any fault; the settings file as it was in between is copied to <Dir>/between
 }
 
 type op struct {
@@ -329,7 +330,20 @@ func faultChild(args []string) int {
 	if err != nil {
 		msg = err.Error()
 	}
-	b, _ := json.Marshal(map[string]string{"error": msg})
+	rep := map[string]string{"error": msg}
+	if spec.Follow != nil {
+		if spec.LimitAt >= 0 {
+			var cur syscall.Rlimit
+			syscall.Getrlimit(syscall.RLIMIT_FSIZE, &cur)
+			syscall.Setrlimit(syscall.RLIMIT_FSIZE, &syscall.Rlimit{Cur: cur.Max, Max: cur.Max})
+		}
+		os.WriteFile(filepath.Join(spec.Dir, "between"), []byte(contents(spec.Dir)), 0o644)
+		rep["follow_error"] = ""
+		if err := apply(path, *spec.Follow); err != nil {
+			rep["follow_error"] = err.Error()
+		}
+	}
+	b, _ := json.Marshal(rep)
 	os.Stdout.Write(append(b, '\n'))
 	return 0
 }
@@ -471,27 +485,41 @@ func runWriteFault(c *harness.Ctx) harness.Result {
 	} else {
 		ks = []int{0, 1, len(newC) / 2, len(newC) - 1, len(newC), len(newC) + 1, len(oldC), r.Intn(limit + 1), r.Intn(limit + 1), r.Intn(limit + 1)}
 	}
-	for _, k := range ks {
+	for ki, k := range ks {
 		if k < 0 {
 			continue
 		}
-		dir := filepath.Join(c.Tmp, fmt.Sprint("k", k))
+		dir := filepath.Join(c.Tmp, fmt.Sprint("k", k, "-", ki))
 		os.MkdirAll(dir, 0o755)
-		out, errs, err := runChild(faultSpec{Dir: dir, Old: old, Op: o, LimitAt: k}, nil)
+		// the follow-up runs in the same process for every other position (state kept in memory
+		// by the failed operation would show there) and in a fresh process otherwise
+		sameProc := ki%2 == 1
+		fs := faultSpec{Dir: dir, Old: old, Op: o, LimitAt: k}
+		if sameProc {
+			fs.Follow = &fop
+		}
+		out, errs, err := runChild(fs, nil)
 		c.Stat("write_fault_positions", 1)
 		if err != nil {
 			// the child died (e.g. SIGXFSZ): allowed, but the file must still be old or new
 			c.Stat("write_fault_child_died", 1)
 		}
 		var rep struct {
-			Error      string `json:"error"`
-			SetupError string `json:"setup_error"`
+			Error       string  `json:"error"`
+			SetupError  string  `json:"setup_error"`
+			FollowError *string `json:"follow_error"`
 		}
 		json.Unmarshal([]byte(strings.TrimSpace(out)), &rep)
 		if rep.SetupError != "" {
 			return harness.Result{Verdict: harness.Inconclusive, Detail: "setup: " + rep.SetupError + errs}
 		}
 		got := contents(dir)
+		after := ""
+		if sameProc && rep.FollowError != nil {
+			after = got
+			bb, _ := os.ReadFile(filepath.Join(dir, "between"))
+			got = string(bb)
+		}
 		switch got {
 		case newC:
 			c.Stat("write_fault_took_effect", 1)
@@ -506,7 +534,19 @@ func runWriteFault(c *harness.Ctx) harness.Result {
 			res.Detail = fmt.Sprintf("a write failure after %d bytes (RLIMIT_FSIZE) during %s of %q left the settings file in a state that is neither the previous nor the new contents:\n got: %q\n old: %q\n new: %q\n reported error: %q", k, o.Kind, o.Name, got, oldC, newC, rep.Error)
 			return res
 		}
-		if msg := checkFollowUp(dir, got, oldC, newC, fref, fop); msg != "" {
+		if sameProc && rep.FollowError != nil {
+			failed := *rep.FollowError != ""
+			okOld := got == oldC && after == fref.afterOld && failed == fref.errOld
+			okNew := got == newC && after == fref.afterNew && failed == fref.errNew
+			if !okOld && !okNew {
+				res.Verdict = harness.Violated
+				res.Detail = fmt.Sprintf("after a write failure at byte %d (RLIMIT_FSIZE) during %s of %q, the next operation of the same process (%s of %q, no fault) gave\n got: %q (error reported: %v)\nwant: %q (error: %v) [or, had the faulted operation taken effect, %q (error: %v)]\nfile before it: %q", k, o.Kind, o.Name, fop.Kind, fop.Name, after, failed, fref.afterOld, fref.errOld, fref.afterNew, fref.errNew, got)
+				return res
+			}
+			c.Stat("follow_up_same_process", 1)
+		} else if sameProc {
+			c.Stat("follow_up_skipped_child_died", 1)
+		} else if msg := checkFollowUp(dir, got, oldC, newC, fref, fop); msg != "" {
 			res.Verdict, res.Detail = harness.Violated, fmt.Sprintf("after a write failure at byte %d (RLIMIT_FSIZE) during %s of %q, %s", k, o.Kind, o.Name, msg)
 			return res
 		}
